@@ -114,6 +114,8 @@ let text_diff h (kind : string) (repair : bool) : tdiff =
   let oa = Array.of_list (List.map str_of olds) and na = Array.of_list (List.map str_of news) in
   let alg = parse_alg (get h "alg") in
   let dlo = match Hashtbl.find_opt h "dl" with Some s -> parse_opt s | None -> None in
+  (* a timeout too large for an Instant is no deadline at all *)
+  let dlo = if get_def h "via" "deadline" = "timeout_max" then None else dlo in
   let ops, c = unres (textdiff_ops alg (deadline_of dlo) !dbg repair (item_oracles oa na) (ni (Array.length oa)) (ni (Array.length na))) in
   let nt =
     newline_flag
